@@ -20,7 +20,8 @@
    ASCII without braces plus spaces, not starting with a space or quote, not ending with a space or
    semicolon; comment lines are statements starting with '#'). *)
 From Coq Require Import NArith List Bool Arith.
-Require Import CCP.Lib.PyStr CCP.Lib.Res CCP.gen.TabC08 CCP.Model.Brace CCP.Proofs.C08Proofs.
+Require Import CCP.Lib.PyStr CCP.Lib.Res CCP.gen.TabC08 CCP.Model.Brace CCP.Proofs.C08Proofs CCP.Proofs.C08LinksProofs.
+Require CCP.Model.Links.
 Import ListNotations.
 
 Theorem C08_tables_as_modelled :
@@ -115,6 +116,13 @@ Example C08_brace_parents_ex :
   wf_forest (erase_forest ex_layout) = true
   /\ forest_parents None false 0 (erase_forest ex_layout) = [0; 0; 0; 2; 4; 0; 5; 7].
 Proof. split; vm_compute; reflexivity. Qed.
+
+(* the same about the specification of property C02 itself (Model/Links.v: spec_parents, linfo_of): with
+   C02_links_parent (bootstrap_parents = spec_parents) this is a statement about the cache-based loop *)
+Theorem C08_brace_parents_c02 : forall sw f, 0 < sw -> wf_forest f = true ->
+  self_or 0 (Links.spec_parents (map (Links.linfo_of [HASH]) (flatten_forest sw 0 f))) = forest_parents None false 0 f.
+Proof. exact brace_parents_c02. Qed.
+Print Assumptions C08_brace_parents_c02.
 
 (* the indentation of the result is monotone in the nesting depth: all lines of a forest at depth d are
    indented at least d * sw (with equality for its roots) — the form in which this composes with C02 *)
